@@ -1,5 +1,5 @@
 //! C23 — the sync Bloom filter has no false negatives and never crashes.
-use crate::fw::*;
+use amv::fw::*;
 use automerge::sync::BloomFilter;
 use automerge::ChangeHash;
 use serde_json::json;
